@@ -24,6 +24,8 @@ type Src struct {
 
 	// Policy decides how many bytes (1..max) a Read delivers. nil = deliver max.
 	Policy func(max int, off int) int
+	// OnRead, when set, sees the caller's slice before every non-empty Read (state keys).
+	OnRead func(p []byte, off int)
 
 	Reads      int // number of Read calls
 	ReadsAtEnd int // calls made after the end was reported
@@ -67,6 +69,9 @@ func (s *Src) Read(p []byte) (int, error) {
 		max = rem
 	}
 	n := max
+	if s.OnRead != nil {
+		s.OnRead(p, s.Off)
+	}
 	if s.Policy != nil {
 		n = s.Policy(max, s.Off)
 		if n < 1 || n > max {
